@@ -37,3 +37,56 @@ def fx_wellformed(s) -> bool:
 
 def fx_is_key(s) -> bool:
     return isinstance(s, str) and s.isdigit()
+
+
+# ----------------------------------------------------------------------------------------------- evaluation ghosts
+# `ev_*(expr[, text])` stand for "what parse + evaluate_ahb_expression_tree yields for this expression" (contract of
+# C04/C09).  Natively they are answered from a table the replay harness fills (EV_TABLE[expr] = dict(...)).
+EV_TABLE = {}
+NATIVE = {}
+
+
+def _ev(expr):
+    if expr not in EV_TABLE:
+        raise NotImplementedError(f"no native evaluation registered for {expr!r}")
+    return EV_TABLE[expr]
+
+
+def ev_invalid(expr):
+    return _ev(expr)["invalid"]
+
+
+def ev_reason(expr):
+    return _ev(expr).get("reason")
+
+
+def ev_indicator(expr):
+    return _ev(expr)["indicator"]
+
+
+def ev_fulfilled(expr):
+    return _ev(expr)["fulfilled"]
+
+
+def ev_hints(expr):
+    return _ev(expr).get("hints")
+
+
+def ev_fc_fulfilled(expr, text):
+    return _ev(expr).get("fc_fulfilled", True)
+
+
+def ev_fc_message(expr, text):
+    return _ev(expr).get("fc_message")
+
+
+def abstract_list(name, *args):
+    return NATIVE[name](*args)
+
+
+def abstract_value(name, *args):
+    return NATIVE[name](*args)
+
+
+def concat(lists):
+    return [x for sub in lists for x in sub]
